@@ -448,3 +448,20 @@ def end_to_end(sx, B):
     got = [x for x in mol.nodes[n - 1].get("distance_restraints", []) if x[0] == 0]
     if sx.claim(len(got) == 1, "end residue carries the sampled restraint"):
         sx.claim(abs(got[0][1] - (d + avg)) < 1e-9 and abs(got[0][2] - d) < 1e-9, "bounds are [d, d + average step]", lambda: repr(got))
+
+
+import harness.C18 as _c18      # noqa: E402
+
+
+@condition("C07.build_file_selection",
+           anchors=["polyply.src.build_file_parser:BuildDirector._tag_nodes", "polyply.src.build_file_parser:BuildDirector.finalize"],
+           rejects=(), must_cover=["tagged", "two geometry lines on one residue", "two rw lines", "unordered residues"],
+           outside=["molecule indices / residue ids above 6", "more than two directive lines per kind"],
+           bounds={"quick": dict(hi=3, molnames=["P", "G"]), "thorough": dict(hi=4, molnames=["P", "G", "S"])},
+           budget={"quick": 280, "thorough": 1500})
+def build_file_selection(sx, B):
+    """'for every residue they select': the restraints the walk enforces are the ones the build-file reader attaches to the residues.
+    The C18.build_file_ranges harness (real read_build_file with symbolic molecule-index and residue-id ranges on a topology with
+    repeated molecule names, residues of other names inside the ranges and residues stored out of residue-id order): a residue
+    carries exactly the geometric restraints and growth-direction restrictions whose ranges and names select it."""
+    _c18.build_file_ranges(sx, B)
